@@ -185,10 +185,17 @@ def run(ctx):
         classes = []
         if it.prog is not None:
             q, _ = pg.query_model(it.goal, it.prog.symtab())
-            cc, fl = logic.coq_codes(ctx.work, "cls%d" % k, {"P": ("program", pg.to_model(it.prog)), "q": ("query", q)},
-                                     [(["P", "q"], logic.bb("f14_class P q"))])
+            dd = {"P": ("program", pg.to_model(it.prog)), "q": ("query", q)}
+            ee = [(["P", "q"], logic.bb("f14_class P q"))]
+            if not pg.has_exists(it.goal):
+                dd["g"] = ("goal", pg.goal_model(it.goal, it.prog.symtab()))
+                ee.append((["P", "g"], logic.bb("f7q_class 150 P g")))
+            cc, fl = logic.coq_codes(ctx.work, "cls%d" % k, dd, ee)
             if not fl and cc[0] == 1:
                 classes.append("F14")
+            k1 = logic.answer_kind(it.answers["slg"][1])
+            if not fl and len(cc) > 1 and cc[1] == 1 and k1 == "NoSolution":
+                classes.append("F7q")
         f = classify(ctx, it, "incompatible", classes)
         if f:
             ctx.known_finding(f, it.goal_text)
